@@ -724,6 +724,21 @@ func (x *vc) evalCall(env *cenv, e *cexpr) Val {
 		}
 		x.kindFact(t) // what reflect says about values of that dynamic type
 		return Val{T: eq(app("itag", v.T), smtInt(int64(x.srt.typeID(t)))), Typ: boolT}
+	case "rtimpl": // rtimpl(t, "I"): the type with identifier t implements interface type I (reflect.Type.Implements; type assertions to I)
+		tv := x.eval(env, e.args[0])
+		if e.args[1].op != "str" {
+			x.cfail("rtimpl needs a string literal interface type name")
+		}
+		it := x.lookupType(env.pkg, e.args[1].name)
+		if it == nil {
+			x.cfail("unknown type %s", e.args[1].name)
+		}
+		x.kindFact(it)
+		return Val{T: app("rt_implements", tv.T, smtInt(int64(x.srt.typeID(it)))), Typ: boolT}
+	case "ptrto": // ptrto(t): the identifier of the pointer type to the type with identifier t
+		tv := x.eval(env, e.args[0])
+		x.kindFact(types.Typ[types.Int]) // makes sure the reflect prelude (rt_ptrto) is included
+		return Val{T: app("rt_ptrto", tv.T), Typ: intT}
 	case "dyn": // dyn(x, "*Error"): payload of interface x viewed as type
 		v := x.eval(env, e.args[0])
 		t := x.lookupType(env.pkg, e.args[1].name)
@@ -783,7 +798,7 @@ func (x *vc) evalCall(env *cenv, e *cexpr) Val {
 			ref = app("sl_arr", v.T)
 		}
 		x.needLocalobj()
-		return Val{T: app("localobj", ref), Typ: boolT}
+		return Val{T: localAny(ref), Typ: boolT}
 	case "kind", "valid", "rvlen", "elemof", "isnil", "canif", "canaddr", "canset", "fval", "sval", "bval", "res", "rvtype", "rvnumfield":
 		// observers of the reflect.Value model
 		v := x.eval(env, e.args[0])
